@@ -74,8 +74,10 @@ def proposal_case(task):
     rng0 = np.random.default_rng([seed, D, G, 808])
     nmax = task["nmax"]
     forests_desc = task["parents"]
-    for kname, rho, perm in task["kernels"]:
-        data = gen.make_data(rng0, nmax + 1, D, G, kind="moderate", outlier_prior=0.2 if rho > 0 else 0.0)
+    for kname, rho, perm, prior in [(k, r, p, pr) for (k, r, p) in task["kernels"] for pr in ([0.2, 0.0] if r > 0 else [0.0])]:
+        # the kernel's outlier proposal and the data points' outlier prior are separate switches: prior 0 (the DataPoint
+        # default, no prior term) under an outlier-proposing kernel is a legitimate pairing
+        data = gen.make_data(rng0, nmax + 1, D, G, kind="moderate", outlier_prior=prior)
         td = TreeJointDistribution(FSCRPDistribution(alpha))
         for fd in forests_desc:
             f = gen.AForest.from_desc(fd) if fd is not None else None
@@ -83,7 +85,7 @@ def proposal_case(task):
             dp = data[m]
             for give_parent_tree in ([True, False] if f is not None else [False]):
                 clear_proposal_dist_caches()
-                case = {"kernel": kname, "rho": rho, "perm": perm, "parent": fd, "next": m,
+                case = {"kernel": kname, "rho": rho, "perm": perm, "outlier_prior": prior, "parent": fd, "next": m,
                         "parent_tree_passed": give_parent_tree, "alpha": alpha, "D": D, "G": G, "seed": seed}
                 part.count("evaluations")
                 part.see("%s|%s|%s|%s" % (kname, rho, perm, gen.key_str(f.key()) if f else "none"))
@@ -189,7 +191,7 @@ def smc_case(task):
     kname, rho, perm, n, N = task["kernel"], task["rho"], task["perm"], task["n"], task["N"]
     D, G, alpha, seed = task["D"], task["G"], task["alpha"], task["seed"]
     rng0 = np.random.default_rng([seed, D, G, n, 818])
-    data = gen.make_data(rng0, n, D, G, kind="moderate", outlier_prior=0.2 if rho > 0 else 0.0)
+    data = gen.make_data(rng0, n, D, G, kind="moderate", outlier_prior=task.get("prior", 0.2) if rho > 0 else 0.0)
     td = TreeJointDistribution(FSCRPDistribution(alpha))
     order = list(task["order"])
     sigma = [data[i] for i in order]
@@ -301,7 +303,7 @@ def path_task(task):
         kname = KERNELS[c % 3]
         perm = bool((c // 3) % 2 == 0)
         alpha = float(np.exp(rng.normal() * 0.7))
-        data = gen.make_data(rng, n, D, G, kind="moderate", outlier_prior=0.2 if rho > 0 else 0.0)
+        data = gen.make_data(rng, n, D, G, kind="moderate", outlier_prior=[0.2, 0.2, 0.0][(c // 2) % 3] if rho > 0 else 0.0)
         f = random_placement_forest(rng, n, 0.15 if rho > 0 else 0.0)
         case = {"seed": task["seed"], "shard": task["shard"], "case": c, "kernel": kname, "rho": rho, "perm": perm, "n": n,
                 "forest": f.describe(), "alpha": alpha}
@@ -374,7 +376,7 @@ def csmc_task(task):
         perm = bool((c // 2) % 2)
         N = [2, 3, 5][c % 3]
         alpha = float(np.exp(rng.normal() * 0.7))
-        data = gen.make_data(rng, n, 1 + c % 2, 5, kind="moderate", outlier_prior=0.3 if rho > 0 else 0.0)
+        data = gen.make_data(rng, n, 1 + c % 2, 5, kind="moderate", outlier_prior=[0.3, 0.0, 0.3, 0.3][(c // 3) % 4] if rho > 0 else 0.0)
         f = random_placement_forest(rng, n, 0.4 if rho > 0 else 0.0)
         case = {"seed": task["seed"], "shard": task["shard"], "case": c, "kernel": kname, "rho": rho, "perm": perm, "n": n,
                 "N": N, "forest": f.describe(), "alpha": alpha}
@@ -495,6 +497,9 @@ def run(ctx):
                     for order in orders:
                         stasks.append({"kernel": kname, "rho": rho, "perm": perm, "n": n, "N": N, "D": 1, "G": 4,
                                        "alpha": 0.8, "seed": ctx.seed, "order": order})
+                        if rho > 0 and (n, N) in ((2, 1), (2, 2)):
+                            stasks.append({"kernel": kname, "rho": rho, "perm": perm, "n": n, "N": N, "D": 1, "G": 4,
+                                           "alpha": 0.8, "seed": ctx.seed, "order": order, "prior": 0.0})
                         if kname != "bootstrap" and (n, N) in ((2, 2), (3, 1)):
                             stasks.append({"kernel": kname, "rho": rho, "perm": perm, "n": n, "N": N, "D": 1, "G": 4,
                                            "alpha": 0.8, "seed": ctx.seed, "order": order, "warm_alpha": 3.1})
